@@ -117,22 +117,28 @@ def _slack_case(rng, stream):
     eq = 2
     fault = rng.random()
     tag = "normal"
-    extra_dv = GI.dv(20, 3, (0.0, 5.0))
+    # a further variable that is not integer / binary (continuous, semi-integer, semi-continuous), with varying id: the
+    # slack gets the id after the largest defined one, wherever that one is listed
+    xid = rng.choice([20, 20, 9, 12, 1000, 2 ** 40 + 3])
+    extra_dv = GI.dv(xid, rng.choice([3, 3, 4, 5]), (0.0, 5.0))
     if fault < 0.06:
         eq = 1
         tag = "equality"
     elif fault < 0.12 and ft[0] in ("lin", "poly"):
         # a continuous variable inside the constraint
         if ft[0] == "lin":
-            ft[1][0].append([20, f64(1.0)])
-            qt[1][0].append([20, 1])
+            ft[1][0].append([xid, f64(1.0)])
+            qt[1][0].append([xid, 1])
         else:
-            ft[1].append([[20], f64(1.0)])
-            qt[1].append([[20], 1])
+            ft[1].append([[xid], f64(1.0)])
+            qt[1].append([[xid], 1])
         tag = "continuous"
     cons = [GI.constraint(3, 1, ["lin", [[[ids[0], f64(1.0)]], f64(0.0)]]), GI.constraint(cid, eq, ft, GI.meta(rng, "c"))]
     rng.shuffle(cons)
-    inst = [1, [["lin", [[[ids[0], f64(1.0)]], f64(0.0)]]], dvs + [extra_dv], cons,
+    all_dvs = dvs + [extra_dv]
+    if rng.random() < 0.5:
+        rng.shuffle(all_dvs)
+    inst = [1, [["lin", [[[ids[0], f64(1.0)]], f64(0.0)]]], all_dvs, cons,
             [[[GI.constraint(11, 2, ["const", f64(-1.0)])], "old", []]] if rng.random() < 0.3 else [], [], [], [], []]
     target = cid if fault >= 0.18 or fault < 0.12 else 4242
     if target != cid:
@@ -147,7 +153,7 @@ def gen(rng, tier):
     for k in range(n):
         stream = rng.choice(["int", "quarter", "rational"])
         inst, target, q, tag = slack_case(rng, stream)
-        mx = rng.choice([100000, 100000, 3, 1])
+        mx = rng.choice([100000, 100000, 3, 1, 2, 4, 5, 6, 8, 12, 24])
         cases.append({"op": "convert_slack", "input": [inst, target, mx, q], "stream": "convert/%s/%s" % (stream, tag)})
         ub = rng.choice([1, 2, 4, 8, 3, 5])
         # (an unbounded variable is outside the add-slack clause: the coefficient -L/U would be infinite; for the
